@@ -156,6 +156,31 @@ theorem C14_reopen_fresh (s : Sys) (x : Bool) (sid : Nat) (hq : s.quiet sid = tr
   · cases x <;> simp [Sys.ep, Sys.setEp, addObjEp, lookup_insert_self]
   · cases x <;> rfl
 
+/-- The explicit schedule, for ALL message counts (by induction over the message lists) and both framings: A opens stream 1
+and sends the messages `v1 :: ms1` one at a time (write, write loop, delivery, read at B); both applications close
+(A first) and every RE-CONFIG packet arrives; A opens stream 1 again and sends `v2 :: ms2`. At the end B holds exactly two
+stream objects: the first has handed its reader `v1 :: ms1` in order and then EOF, the second — of incarnation 2, not
+reset — has handed its reader `v2 :: ms2` in order; A's second object has written exactly `v2 :: ms2`; the identifier
+was never re-opened early (`taint = []`). -/
+theorem C14_reopen_schedule (il : Bool) (tsnA tsnB : Nat) (ha : 0 < tsnA) (v1 : Nat) (ms1 : List Nat) (v2 : Nat) (ms2 : List Nat) :
+    ∃ (o1 o2 w2 : Obj), (((Sys.init il tsnA tsnB).run (scheduleOps tsnA v1 ms1 v2 ms2)).ep true).objs = [o1, o2] ∧
+      o1.eofSeen = true ∧ o1.got = (v1 :: ms1).map (fun m => (m, false)) ∧
+      o2.got = (v2 :: ms2).map (fun m => (m, false)) ∧ o2.gen = 2 ∧ o2.readErr = false ∧ o2.nextSeq = ms2.length + 1 ∧
+      (((Sys.init il tsnA tsnB).run (scheduleOps tsnA v1 ms1 v2 ms2)).ep false).objs[1]? = some w2 ∧
+      w2.wrote = (v2 :: ms2).map (fun m => (m, false)) ∧ w2.gen = 2 ∧
+      ((Sys.init il tsnA tsnB).run (scheduleOps tsnA v1 ms1 v2 ms2)).taint = [] :=
+  reopen_schedule il tsnA tsnB ha v1 ms1 v2 ms2
+
+/-- sample (a test): the schedule for 2 + 1 messages, as an operation list -/
+example : scheduleOps 10 7 [8] 9 [] =
+    [.openS false 1,
+     .write false 0 8 false 7, .gather false [0] [[10]] [] false, .deliver false 0, .read true 0,
+     .write false 0 8 false 8, .gather false [0] [[11]] [] false, .deliver false 1, .read true 0,
+     .close false 0, .gather false [0] [] [] false, .deliver false 2, .read true 0, .close true 0, .gather true [0] [] [] false,
+     .deliver true 0, .deliver true 1, .read false 0, .gather false [] [] [] false, .deliver false 3,
+     .openS false 1,
+     .write false 1 8 false 9, .gather false [0] [[12]] [] false, .deliver false 4, .read true 1] := by decide
+
 /-- … and the first message written on it leaves with sequence number 0 (DATA: SSN, I-DATA: MID), whatever happened to
 earlier incarnations: in every reachable state, a numbered chunk of an object carries the position of its message among
 the messages of its kind written on that object. -/
